@@ -14,8 +14,6 @@ and the report of the work package for the real-file reproductions):
 
 * `WF t`        – what the parser guarantees (indices in range, one entry per export alias, `ExportsRef` fresh);
 * `EsmOnly t`   – every file is an ES module with an `export`, nothing external, no TypeScript "maybe a type" rule;
-* `LocInj t`    – no local binding is exported under two names (`export {x as a, x as b}`): the tracker compares export
-                  LOCATIONS, so two star paths to the same binding through `a` and `b` count as ambiguous (esbuild defect);
 * `NoReexportCycle` – no named re-export leads back to itself through other re-exports / export stars: the tracker follows
                   only the first star source and reports a cycle (or an ambiguity) where ECMA-262 skips the circular path;
 * `ReexportsLink` – every indirect export entry resolves to a binding, i.e. every module passes the specification's own
@@ -29,14 +27,14 @@ open EsbuildModel.ExportMatch EsbuildModel.Spec EsbuildModel.Spec.EsModules
 vocabulary (`resolutionOf`: Normal ↦ that binding / the namespace object, Ambiguous ↦ ambiguous, no match ↦ null), is
 exactly what InitializeEnvironment computes for the import entry: `importedModule.ResolveExport(importName)` (or the
 namespace object for `import * as`).  The result is found / ambiguous / no-match and never "cycle". -/
-theorem import_binds_to_spec_binding (t : ExportMatch.Table) (k : Bool) (hwf : WF t) (hesm : EsmOnly t) (hloc : LocInj t)
+theorem import_binds_to_spec_binding (t : ExportMatch.Table) (k : Bool) (hwf : WF t) (hesm : EsmOnly t)
     (hnc : NoReexportCycle (toSpec t)) (hlink : ReexportsLink (toSpec t))
     (s : Nat) (f : File) (ni : NamedImport) (hf : t[s]? = some f) (hi : findImport f ni.ref = some ni) :
     ∃ rs R tg, allResolved t = some rs ∧ matchImport ⟨t, rs, k⟩ s ni.ref = some R ∧ ni.target = some tg ∧
       resolveImport (toSpec t) ⟨tg, importNameOf ni, ni.ref⟩ = some (resolutionOf t R) ∧
       (R.kind = .normal ∨ R.kind = .ambiguous ∨ R = {}) := by
   obtain ⟨rs, hrs⟩ := allResolved_some hwf
-  have H : Hyps t rs := ⟨hwf, hesm, hrs, hloc, hnc, hlink⟩
+  have H : Hyps t rs := ⟨hwf, hesm, hrs, hnc, hlink⟩
   obtain ⟨R, hR, hnone, hbind, hamb⟩ := matchImport_spec H k hf hi
   have hfm := List.mem_of_getElem? hf
   have hnim := (findImport_mem hi).1
@@ -51,8 +49,9 @@ theorem import_binds_to_spec_binding (t : ExportMatch.Table) (k : Bool) (hwf : W
       have hRb := hbind _ hp (fun b' hb' => by simpa [Pointed, htg, hs] using hb')
       have hg : GoodBinding t ⟨tg, .namespace⟩ :=
         ⟨t[tg], List.getElem?_eq_getElem htlt, fun r hr => by cases hr⟩
-      refine ⟨?_, Or.inl (by rw [hRb]; exact normalOf_kind _ _)⟩
-      simp [resolveImport, importNameOf, hs, toSpec_length, htlt, hRb, resolutionOf_normalOf hg]
+      refine ⟨?_, Or.inl (by rw [(noLoc_fields hRb).1]; exact normalOf_kind _ _)⟩
+      rw [← resolutionOf_noLoc, hRb]
+      simp [resolveImport, importNameOf, hs, toSpec_length, htlt, resolutionOf_normalOf hg]
     · have hs' : ni.isStar = false := by simpa using hs
       have hpointed : ∀ b, Pointed t ni b ↔ Reaches (toSpec t) (tg, ni.alias) b := by
         intro b; simp [Pointed, htg, hs']
@@ -67,8 +66,8 @@ theorem import_binds_to_spec_binding (t : ExportMatch.Table) (k : Bool) (hwf : W
       | binding b =>
         obtain ⟨hb, hu⟩ := hrbind b rfl
         have hRb := hbind b ((hpointed b).2 hb) (fun b' hb' => hu b' ((hpointed b').1 hb'))
-        refine ⟨?_, Or.inl (by rw [hRb]; exact normalOf_kind _ _)⟩
-        rw [hRb, resolutionOf_normalOf (reaches_good hwf hb)]
+        refine ⟨?_, Or.inl (by rw [(noLoc_fields hRb).1]; exact normalOf_kind _ _)⟩
+        rw [← resolutionOf_noLoc, hRb, resolutionOf_normalOf (reaches_good hwf hb)]
       | ambiguous =>
         obtain ⟨b1, b2, h1, h2, hne⟩ := hramb rfl
         have hk := hamb b1 b2 ((hpointed b1).2 h1) ((hpointed b2).2 h2) hne
@@ -84,7 +83,7 @@ theorem import_binds_to_spec_binding (t : ExportMatch.Table) (k : Bool) (hwf : W
   is `b` (the namespace object if that symbol is the target file's `ExportsRef`).
 
 The three cases are exhaustive and exclusive on both sides, so each "iff" follows. -/
-theorem resolvedExports_eq_spec (t : ExportMatch.Table) (k : Bool) (hwf : WF t) (hesm : EsmOnly t) (hloc : LocInj t)
+theorem resolvedExports_eq_spec (t : ExportMatch.Table) (k : Bool) (hwf : WF t) (hesm : EsmOnly t)
     (hnc : NoReexportCycle (toSpec t)) (hlink : ReexportsLink (toSpec t)) (m : Nat) (hm : m < t.length) (a : ExportMatch.Name) :
     ∃ rs res results, allResolved t = some rs ∧ rs[m]? = some res ∧ matchAll ⟨t, rs, k⟩ = some results ∧
       match resolveExport (toSpec t) m a with
@@ -94,7 +93,7 @@ theorem resolvedExports_eq_spec (t : ExportMatch.Table) (k : Bool) (hwf : WF t) 
           bindingOf t (finalRef results ex.src ex.ref) = b
       | none => False := by
   obtain ⟨rs, hrs⟩ := allResolved_some hwf
-  have H : Hyps t rs := ⟨hwf, hesm, hrs, hloc, hnc, hlink⟩
+  have H : Hyps t rs := ⟨hwf, hesm, hrs, hnc, hlink⟩
   obtain ⟨res, hres1, hres2⟩ := allResolved_get hrs hm
   obtain ⟨results, hresults⟩ := matchAll_some H k
   refine ⟨rs, res, results, hrs, hres1, hresults, ?_⟩
@@ -114,12 +113,12 @@ theorem resolvedExports_keys_eq_exportedNames (t : ExportMatch.Table) (hwf : WF 
 /-- **Namespace shape.**  The aliases that survive step 5 (`SortedAndFilteredExportAliases`, before sorting) are exactly
 the [[Exports]] of the module namespace object (GetModuleNamespace: the exported names whose resolution is a binding). -/
 theorem export_aliases_eq_namespace_exports (t : ExportMatch.Table) (k : Bool) (hwf : WF t) (hesm : EsmOnly t)
-    (hloc : LocInj t) (hnc : NoReexportCycle (toSpec t)) (hlink : ReexportsLink (toSpec t)) (m : Nat)
+    (hnc : NoReexportCycle (toSpec t)) (hlink : ReexportsLink (toSpec t)) (m : Nat)
     (hm : m < t.length) :
     ∃ rs res results L, allResolved t = some rs ∧ rs[m]? = some res ∧ matchAll ⟨t, rs, k⟩ = some results ∧
       namespaceExports (toSpec t) m = some L ∧ ∀ a, a ∈ filteredAliases results res ↔ a ∈ L := by
   obtain ⟨rs, hrs⟩ := allResolved_some hwf
-  have H : Hyps t rs := ⟨hwf, hesm, hrs, hloc, hnc, hlink⟩
+  have H : Hyps t rs := ⟨hwf, hesm, hrs, hnc, hlink⟩
   obtain ⟨res, hres1, hres2⟩ := allResolved_get hrs hm
   obtain ⟨results, hresults⟩ := matchAll_some H k
   obtain ⟨names, hnames, hkeys⟩ := keys_iff_exported hwf hesm hm hres2
@@ -188,7 +187,6 @@ def exLevel : Nat → Nat
 
 theorem exTable_wf : WF exTable := by constructor <;> simp [exTable] <;> decide
 theorem exTable_esm : EsmOnly exTable := by constructor <;> simp [exTable]
-theorem exTable_locInj : LocInj exTable := by unfold LocInj; simp [exTable, findImport]
 theorem exTable_noCycle : NoReexportCycle (toSpec exTable) := noReexportCycle_of_level exLevel (by decide) (by decide)
 theorem exTable_link : ReexportsLink (toSpec exTable) := reexportsLink_of_check (by decide)
 
@@ -206,29 +204,45 @@ example :
     namespaceExports (toSpec exTable) 1 = some ["own", "c", "b"] := by
   refine ⟨⟨_, rfl, ?_⟩, ?_⟩ <;> decide
 
-example := import_binds_to_spec_binding exTable true exTable_wf exTable_esm exTable_locInj exTable_noCycle exTable_link
-example := resolvedExports_eq_spec exTable true exTable_wf exTable_esm exTable_locInj exTable_noCycle exTable_link
-example := export_aliases_eq_namespace_exports exTable true exTable_wf exTable_esm exTable_locInj exTable_noCycle
+example := import_binds_to_spec_binding exTable true exTable_wf exTable_esm exTable_noCycle exTable_link
+example := resolvedExports_eq_spec exTable true exTable_wf exTable_esm exTable_noCycle exTable_link
+example := export_aliases_eq_namespace_exports exTable true exTable_wf exTable_esm exTable_noCycle
   exTable_link
 example := resolvedExports_keys_eq_exportedNames exTable exTable_wf exTable_esm
 example := linker_model_total exTable true exTable_wf
 
-/-! ## Every hypothesis is needed: the model (= the real linker, see the correspondence kernel) disagrees with ECMA-262
+/-! ## Two `export *` paths to ONE binding through different export clauses
 
-`LocInj` — two star paths to ONE binding that is exported under two names
-(`d: let x; export {x as a, x as b}`, `b: export {a as n} from d`, `c: export {b as n} from d`, `a: export * from b, c`,
-`import {n} from a`): the linker says ambiguous, the specification (and Node) binds `n` to `x`. -/
-def locInjCounterexample : ExportMatch.Table := [
+`d: let x; export {x as a, x as b}`, `b: export {a as n} from d`, `c: export {b as n} from d`, `a: export * from b, c`,
+`import {n} from a`.  Before the fix of `matchImportWithExport` (commit "two 'export *' paths to the same binding through
+different export clauses are not ambiguous") the final comparison also compared the locations of the two export clauses
+(24 and 32 below) and reported `n` as ambiguous; now the table meets every hypothesis and both sides bind `n` to `x`. -/
+def twoClausesTable : ExportMatch.Table := [
   ⟨.esm, false, false, 0, [⟨"e", 5, 9⟩], [], [⟨1, some 1, "n", false, some 7, false⟩]⟩,
   ⟨.esm, false, false, 0, [], [some 2, some 3], []⟩,
   ⟨.esm, false, false, 0, [⟨"n", 1, 8⟩], [], [⟨1, some 4, "a", false, some 5, true⟩]⟩,
   ⟨.esm, false, false, 0, [⟨"n", 1, 8⟩], [], [⟨1, some 4, "b", false, some 5, true⟩]⟩,
   ⟨.esm, false, false, 0, [⟨"a", 1, 24⟩, ⟨"b", 1, 32⟩], [], []⟩ ]
 
-example : (∃ rs, allResolved locInjCounterexample = some rs ∧
-      (matchImport ⟨locInjCounterexample, rs, true⟩ 0 1).map (·.kind) = some .ambiguous) ∧
-    resolveExport (toSpec locInjCounterexample) 1 "n" = some (.binding ⟨4, .name 1⟩) := by
+def twoClausesLevel : Nat → Nat
+  | 0 => 3 | 1 => 2 | 2 => 1 | 3 => 1 | _ => 0
+
+theorem twoClausesTable_wf : WF twoClausesTable := by constructor <;> simp [twoClausesTable] <;> decide
+theorem twoClausesTable_esm : EsmOnly twoClausesTable := by constructor <;> simp [twoClausesTable]
+theorem twoClausesTable_noCycle : NoReexportCycle (toSpec twoClausesTable) :=
+  noReexportCycle_of_level twoClausesLevel (by decide) (by decide)
+theorem twoClausesTable_link : ReexportsLink (toSpec twoClausesTable) := reexportsLink_of_check (by decide)
+
+example : (∃ rs, allResolved twoClausesTable = some rs ∧
+      (matchImport ⟨twoClausesTable, rs, true⟩ 0 1).map (resolutionOf twoClausesTable) = some (.binding ⟨4, .name 1⟩)) ∧
+    resolveExport (toSpec twoClausesTable) 1 "n" = some (.binding ⟨4, .name 1⟩) := by
   refine ⟨⟨_, rfl, ?_⟩, ?_⟩ <;> decide
+
+example := import_binds_to_spec_binding twoClausesTable true twoClausesTable_wf twoClausesTable_esm
+  twoClausesTable_noCycle twoClausesTable_link
+
+/-! ## Every remaining hypothesis is needed: the model (= the real linker, see the correspondence kernel) disagrees
+with ECMA-262 without it -/
 
 /-! `NoReexportCycle` — a re-export cycle entered through an export star next to a real binding
 (`s: export {a as e} from t`, `t: export * from s2, s3`, `s2: export {e as a} from s`, `s3: export let a`,
